@@ -83,7 +83,9 @@ class DictProxy(dict):
         """
         return self.cfg is other.cfg and self.dict_field is other.dict_field
 
-    def update(self, iterable: Optional[KeyValuePairs] = None, **kwargs) -> None:
+    def update(  # pylint: disable=arguments-differ
+        self, iterable: Optional[KeyValuePairs] = None, /, **kwargs
+    ) -> None:
         if iterable:
             if isinstance(iterable, DictProxy) and self._is_compatible_proxy(iterable):
                 for key, value in iterable.items():
